@@ -27,12 +27,14 @@ def generate(tier, seed):
     cases = []
     for k in range(120 if tier == 'quick' else 1200):
         nap = 1 if k % 3 == 0 else rng.randint(2, 4)
-        nw = rng.randint(3, 8)
+        many = (k % 20 == 7)                 # a fit in 12 filters that all have their own aperture
+        nw = rng.randint(12, 14) if many else rng.randint(3, 8)
         pkg = pkgcase.gen_package(rng, nm=rng.randint(2, 6), nap=nap, nw=nw, nfilt=1)
         wav = sorted(set(rng.dyadic(0.5, 60.0, 8) for _ in range(nw * 3)))[:nw]
         pkg['wav'] = wav
         pkg['nu'] = pkg['nu'][:len(wav)]
         pkg['flux_unit'] = ['mJy', 'Jy', 'mJy', 'erg / (cm2 s)', 'erg / s'][k % 5]        # the unit the cube is stored in
+        pkg['wav_unit'] = ['micron', 'micron', 'Angstrom', 'micron', 'm', 'cm', 'micron'][k % 7]   # ... and the unit of its spectral axis
         for n in pkg['names']:
             sd = pkg['seds'][n]
             base = [rng.logdyadic(0.01, 100.0, 10) for _ in wav]
@@ -42,12 +44,15 @@ def generate(tier, seed):
                 acc = [x + b * rng.dyadic(0.05, 1.0, 6) for x, b in zip(acc, base)]
             sd['flux'] = rows
             sd['err'] = [[x * 0.1 for x in r] for r in rows]
-        nb = rng.randint(2, min(4, len(wav)))
+        nb = 12 if many and len(wav) >= 12 else rng.randint(2, min(4, len(wav)))
         fidx = rng.sample(range(len(wav)), nb)      # the filter list follows the data file's columns: any order
         if rng.random() < 0.4:
             fidx.sort()
         thetas = [rng.choice([1.5, 2.0, 3.5, 5.0, 8.0]) for _ in fidx]
-        c = dict(pkg=pkg, fidx=fidx, theta=thetas, mode=rng.choice(MODES), nsel=rng.randint(1, 5), form=rng.choice(['object', 'file']), memmap=rng.random() < 0.5,
+        if nb == 12:
+            thetas = [1.5 + 0.25 * i for i in range(12)]
+            rng.shuffle(thetas)
+        c = dict(pkg=pkg, fidx=fidx, theta=thetas, mode=('all' if nb == 12 else rng.choice(MODES)), nsel=rng.randint(1, 5), form=rng.choice(['object', 'file']), memmap=rng.random() < 0.5,
                  src=fitcase.gen_source(rng, nb, flags=[1] * nb), ext=fitcase.gen_ext(rng, [wav[i] for i in fidx]), av_range=[0.0, 20.0])
         # further sources plotted in the same plot() call (their best models overlap with the first source's)
         c['more'] = [rng.choice([0.25, 0.5, 2.0, 3.0]) for _ in range(rng.choice([0, 1, 2]))]
